@@ -40,7 +40,7 @@ def directed(rng: random.Random) -> dict:
     kind = rng.choice(["if_const", "if_undef", "for_bounds", "if_loopvar", "nested", "macro_if", "macro_for", "for_label", "else_chain",
                        "if_defines", "if_defines_label", "macro_if_defines", "for_shadow", "for_after", "macro_defined_in_if",
                        "macro_defined_in_empty_loop", "loop_state_per_iteration", "scope_in_loop", "loop_forward_label_shadow",
-                       "taken_branch_fails", "table_in_loop", "loop_var_width_boundary", "block_argument_in_loop"])
+                       "taken_branch_fails", "table_in_loop", "loop_var_width_boundary", "block_argument_in_loop", "statement_after_if_named_like_a_keyword"])
     tables: dict = {}
     db = lambda *es: {"k": "data", "d": "db", "es": [e if isinstance(e, list) else E(e) for e in es]}  # noqa: E731
     if kind == "if_const":
@@ -164,6 +164,17 @@ def directed(rng: random.Random) -> dict:
                  [{"k": "call", "n": "repeatm", "as": [E(3), blk2]}], [{"k": "call", "n": "framed", "as": [blk2]}, {"k": "call", "n": "framed", "as": [blk2]}]]
         chosen = rng.choice([[0], [1], [2], [0, 1, 2]])
         body += [framed, put, repeat] + [st for i in chosen for st in parts[i]] + [db(0xEE)]
+    elif kind == "statement_after_if_named_like_a_keyword":
+        # an .if without else block, followed by a statement whose first word merely ends in (or starts with) a keyword
+        nm = rng.choice(["no_else", "or_else", "xelse", "else_", "elsewhere", "my_if", "endfor", "iff", "fort"])
+        first = rng.choice(["label", "call", "sym", "assign"])
+        follow = {"label": [{"k": "label", "n": nm}, db(0x33)], "call": [{"k": "call", "n": nm, "as": [E(0x33)]}],
+                  "sym": [{"k": "sym", "n": nm, "e": E(0x33)}, db(E(nm))], "assign": [{"k": "assign", "n": nm, "e": E(0x33)}, db(E(nm))]}[first]
+        pre = [{"k": "macro", "n": nm, "ps": ["pv"], "b": [db(E("pv"))]}] if first == "call" else []
+        ifst = {"k": "if", "c": rng.choice([E(1), E(0), E("cnA")]), "t": [db(0x11)], "e": None}
+        body += pre + [ifst] + follow + [{"k": "block", "b": [db(0x44)]}, db(0xEE)]
+        if rng.random() < 0.5:
+            body = body[:2] + [{"k": "for", "v": "itE", "a": E(0), "b": E(2), "body": body[2:]}]
     elif kind == "table_in_loop":
         # a table loaded inside one iteration belongs to that iteration, exactly as in the block written out by hand
         tables = {"en.tbl": [["41", "A"], ["42", "B"]], "jp.tbl": [["a1", "A"], ["b1", "B"]]}
